@@ -66,7 +66,9 @@ def gen_enum(rng):
             continue
         used.add(v)
         vals.append([v, rng.choice(["Ok", "Active", "Error status", "Closed", "n/a"]),
-                     rng.choice([None, "name_good", "name_warn", "error", "value", "number", "nosuch"])])
+                     # (names of the enum palette; "nosuch" and ids of the configuration are not among them)
+                     rng.choice([None, "name_good", "name_warn", "error", "value", "number", "nosuch", "ERROR", "OK",
+                                 "TABLE.BORDER"])])
     spec = {"values": vals}
     if rng.random() < 0.5:
         spec["missing"] = [rng.choice(["<?>", "unknown"]), rng.choice(["error", "name_warn"])]
